@@ -461,6 +461,21 @@ void init2()
   reg_enum_size<eu32_70000>("u32", 69999);
   reg_enum_size<eu64_3>("u64", 2);
   reg_enum_size<eu64_5000000000>("u64", 4999999999LL);
+  // narrow ceil_div_signed: quotient and remainder are computed in int (never overflows) and cast back
+  table["ceil_div_signed_i8"] = [](i128 a, i128 b, i128) {
+    return show(fcppt::math::ceil_div_signed<std::int8_t>(static_cast<std::int8_t>(a), static_cast<std::int8_t>(b)));
+  };
+  table["ceil_div_signed_i16"] = [](i128 a, i128 b, i128) {
+    return show(fcppt::math::ceil_div_signed<std::int16_t>(static_cast<std::int16_t>(a), static_cast<std::int16_t>(b)));
+  };
+  alias_table["ceil_div_signed_i8"] = [](i128 a) {
+    std::int8_t const x = static_cast<std::int8_t>(a);
+    return show(fcppt::math::ceil_div_signed<std::int8_t>(x, x));
+  };
+  alias_table["ceil_div_signed_i16"] = [](i128 a) {
+    std::int16_t const x = static_cast<std::int16_t>(a);
+    return show(fcppt::math::ceil_div_signed<std::int16_t>(x, x));
+  };
   alias_table["ceil_div_u32"] = [](i128 a) {
     std::uint32_t const x = static_cast<std::uint32_t>(a);
     return show(fcppt::math::ceil_div<std::uint32_t>(x, x));
